@@ -224,16 +224,22 @@ func c02(c *ctx) {
 		}
 		// Reset makes them start over
 		key = fmt.Sprintf("creset/%d", i)
-		if vh.Only(key) && i%4 == 0 {
-			cr := wsutil.NewCipherReader(bytes.NewReader([]byte{1, 2, 3, 4, 5}), [4]byte{9, 9, 9, 9})
-			io.ReadFull(cr, make([]byte, 3))
+		if (vh.Only(key) || vh.Only(key+"w")) && i%4 == 0 {
+			// the earlier stream ran under another key, or (every other time) under the very same key,
+			// and stopped at every residue of the position modulo 4
+			old, oldw := [4]byte{9, 9, 9, 9}, [4]byte{7, 7, 7, 7}
+			if i%8 == 0 {
+				old, oldw = k, k
+			}
+			cr := wsutil.NewCipherReader(bytes.NewReader([]byte{1, 2, 3, 4, 5, 6, 7}), old)
+			io.ReadFull(cr, make([]byte, 1+(i/8)%5))
 			cr.Reset(bytes.NewReader(append([]byte(nil), p...)), k)
 			got, _ := io.ReadAll(cr)
 			emit(map[string]interface{}{"k": "stream", "key": key, "who": "CipherReader.Reset", "p": vh.Ints(p), "key4": vh.Ints(k[:]),
 				"out": vh.Ints(got), "callerIntact": true})
 			var db bytes.Buffer
-			cw := wsutil.NewCipherWriter(io.Discard, [4]byte{7, 7, 7, 7})
-			cw.Write([]byte{1, 2, 3})
+			cw := wsutil.NewCipherWriter(io.Discard, oldw)
+			cw.Write(make([]byte, 1+(i/8)%5))
 			cw.Reset(&db, k)
 			cw.Write(p)
 			emit(map[string]interface{}{"k": "stream", "key": key + "w", "who": "CipherWriter.Reset", "p": vh.Ints(p), "key4": vh.Ints(k[:]),
